@@ -3,8 +3,6 @@ package verifsim
 func genMembership(r *rng, i int) *Spec   { return genSmoke(r) }
 func genLost(r *rng, i int) *Spec         { return genSmoke(r) }
 func genMaintenance(r *rng, i int) *Spec  { return genSmoke(r) }
-func genRepair(r *rng, i int) *Spec       { return genSmoke(r) }
-func genRecovery(r *rng, i int) *Spec     { return genSmoke(r) }
 func genCascade(r *rng, i int) *Spec      { return genSmoke(r) }
 func genOffline(r *rng, i int) *Spec      { return genSmoke(r) }
 func genDisk(r *rng, i int) *Spec         { return genSmoke(r) }
@@ -18,5 +16,13 @@ func (m *Monitors) nontrivial() bool {
 	if m.s.spec.Engine == "B" {
 		return m.opsDone >= 5
 	}
-	return m.faultsTotal > 0
+	if m.faultsTotal > 0 || len(m.s.spec.Timeline) > 0 || m.s.spec.CrashAt != nil {
+		return true
+	}
+	for _, h := range m.s.spec.Hosts {
+		if h.Init != nil {
+			return true // perturbed initial state is the stimulus
+		}
+	}
+	return false
 }
